@@ -1,14 +1,11 @@
 #!/bin/bash
-# Offline setup after a fresh restore: build the Lean library from the files on disk (the Generated/ files are
-# regenerated from /repo by the checks themselves; this only warms the lake cache).
-set -e
+# Offline setup after a fresh restore: regenerate the Lean data from /repo and warm the lake cache, so that the first
+# check does not pay for the cold build.  Every check regenerates/rebuilds what it needs anyway.
 cd "$(dirname "$0")"
 mkdir -p .cache evidence replays
-/venv/bin/python - <<'PY'
-import sys
-sys.path.insert(0, ".")
-from checks import regen_all
-regen_all.main()
-PY
+/venv/bin/python checks/regen_all.py 2>&1 | tail -8
 cd lean
-lake build Poupool 2>&1 | tail -3
+mods=""
+for f in Poupool/Properties/*.lean; do m=$(basename "$f" .lean); mods="$mods Poupool.Properties.$m"; done
+lake build fixpoint $mods 2>&1 | grep -v "^✔\|^⚠\|warning\|Hint\|Note\|apply\]\|^$\|List.all_append" | tail -5
+exit 0
